@@ -98,7 +98,7 @@ def drive_c17(sess, rnd, cfg, record):
         ks = ks[:10] + sorted(R.sample(ks[10:-2], 26)) + ks[-2:]
     for j, k in enumerate(ks):
         op = copy.deepcopy(base)
-        op["pfault"] = {"k": k, "exc": "KeyboardInterrupt" if (j % 13 == 5) else "RuntimeError"}
+        op["pfault"] = {"k": k, "exc": "KeyboardInterrupt" if (j % 13 == 5) else ("SystemExit" if (j % 13 == 9) else "RuntimeError")}
         op["probe_full"] = (j == len(ks) - 1)
         if k > 1:
             sess.nontrivial.add(("battfault", base["model"]["kind"], min(k, 20), op["pfault"]["exc"]))
